@@ -668,6 +668,7 @@ static void v_exec(const plan_t *p)
 static void v_gen(prng_t *r, int mode, plan_t *p)
 {
     p->cfg[CF_DECL] = DECL_OF_INDEX();    /* one run in five starts from the initializer macros */
+    p->cfg[CF_REUSE] = REUSE_OF_INDEX();  /* one run in six: the allocator hands a freed block out again at once */
     static const int sizes[] = { 1, 2, 4, 8, 1, 2, 4, 8, 3, 5, 7, 12, 24, 64 };
     int huge = mode == 9 && prng_chance(r, 1, 300);
     int longrun = !huge && mode != 16 && prng_chance(r, 1, 12), small = !longrun && !huge && prng_chance(r, 1, 5);
